@@ -19,8 +19,10 @@ from .interp import Interp
 
 class Contract:
     def __init__(self, qualname, spec=None, pre=None, cases=None, compare=None, props=None,
-                 result_eq=None, doc="", ghost_link=None, post_hook=None, use_at_calls=True):
+                 result_eq=None, doc="", ghost_link=None, post_hook=None, use_at_calls=True,
+                 inline_pre=()):
         self.qualname = qualname
+        self.inline_pre = tuple(inline_pre)   # preconditions also checked where the body is inlined
         self.spec = spec
         self.pre = pre
         self.cases = cases or {}
@@ -37,6 +39,21 @@ class Contract:
         node = it.eng.funcs[self.qualname]
         env = it.bind_args(node, list(args), dict(kwargs), None)
         return env.vars
+
+    def check_inline_pre(self, it, args, kwargs):
+        """Whole-call scenarios inline every function; the preconditions named in inline_pre are
+        obligations of the scenario there (under the scenario's tag), so that a caller-side
+        requirement is not lost by inlining."""
+        ctx = it.ctx
+        tag = ctx.__dict__.get("scenario_tag")
+        if not self.inline_pre or self.pre is None or tag is None or ctx.spec_mode:
+            return
+        bound = self.bind(it, args, kwargs)
+        short = self.qualname.split(".")[-1]
+        for name, f in self.pre(it, **bound):
+            if name in self.inline_pre and not callable(f):
+                ctx.oblige(f"{tag}/pre:{short}:{name}", f,
+                           detail=f"at the call of {short} from {ctx.callstack[-1] if ctx.callstack else '?'}")
 
     def call(self, it, args, kwargs):
         ctx = it.ctx
